@@ -23,7 +23,7 @@ func runFmt(w *out.W, tier, dial string) {
 			w.Count("fmt/" + r.fmtSt)
 			w.Count("parse/" + r.parseSt)
 			w.Count("back/" + r.backSt)
-			if r.fmtSt != "ok" || r.parseSt != "ok" || r.backSt != "ok" || g.origin == "cross" || showType(g.t) != showType(r.back) {
+			if r.fmtSt != "ok" || r.parseSt != "ok" || r.backSt != "ok" || g.origin == "cross" || g.origin == "specx" || showType(g.t) != showType(r.back) {
 				w.NonTrivial(o.name + showType(g.t))
 			}
 			oracleType(w, o, id, g, r)
